@@ -87,10 +87,12 @@ class Ctx:
     def art(self, name):
         """extracted artefact path, produced on demand by the harness"""
         spec = ARTEFACTS[name]
-        path = os.path.join(self.cache, "art", name + ".ndjson")
+        seeded = any("{seed}" in a for a in spec)
+        path = os.path.join(self.cache, "art", name + (".s%d" % self.seed if seeded else "") + ".ndjson")
         if os.path.exists(path + ".ok"):
             return path
-        args = [a.replace("{out}", path).replace("{alpha}", path + ".alpha.json") for a in spec]
+        args = [a.replace("{out}", path).replace("{alpha}", path + ".alpha.json").replace("{seed}", str(self.seed))
+                for a in spec]
         t = time.time()
         p = subprocess.run([PKV] + args, stdout=subprocess.PIPE, stderr=subprocess.PIPE, text=True,
                            timeout=1800)
@@ -107,7 +109,8 @@ class Ctx:
 
     # ------------------------------------------------------------------ jobs
     def job(self, name):
-        path = os.path.join(self.cache, "jobs", name + ".json")
+        seeded = any(str(v).startswith("art:tr_") for v in JOBS[name].get("env", {}).values())
+        path = os.path.join(self.cache, "jobs", name + (".s%d" % self.seed if seeded else "") + ".json")
         if os.path.exists(path):
             with open(path) as f:
                 return json.load(f)
@@ -152,7 +155,7 @@ def run_tlc(ctx, name, spec):
     meta = os.path.join(WORK, "tlc", name)
     shutil.rmtree(meta, ignore_errors=True)
     os.makedirs(meta, exist_ok=True)
-    cmd = ["java", "-XX:+UseParallelGC", "-Xmx%s" % spec.get("heap", "4g"), "-Xss512m",
+    cmd = ["java", "-XX:+UseParallelGC", "-Xmx%s" % spec.get("heap", "4g"), "-Xss1g"] + spec.get("jvm", []) + [
            "-cp", TLA_JAR, "tlc2.TLC", "-workers", str(spec.get("workers", 4)),
            "-metadir", meta, "-cleanup", "-noGenerateSpecTE", "-nowarning"]
     if spec.get("cont", True):
@@ -202,6 +205,15 @@ ARTEFACTS = {
     "g_kb2_bytes": ["graph", "kb2", "bytes", "60", "{out}", "{alpha}"],
     "g_event": ["graph", "event", "events", "20000", "{out}", "{alpha}"],
     "g_kb2_events": ["graph", "kb2", "kbevents", "20000", "{out}", "{alpha}"],
+    "g_kb2_bits": ["graph", "kb2:lean", "bits", "200000", "{out}", "{alpha}"],
+    "g_kb1_bits": ["graph", "kb1:lean", "bits", "200000", "{out}", "{alpha}"],
+    "g_kb2_mixedq": ["graph", "kb2:lean", "mixedq", "800000", "{out}", "{alpha}"],
+    "g_kb1_mixedq": ["graph", "kb1:lean", "mixedq", "800000", "{out}", "{alpha}"],
+    "g_kb2_mixed": ["graph", "kb2:lean", "mixed", "3000000", "{out}", "{alpha}"],
+    "tr_noise_kb2": ["trace", "noise", "kb2", "{seed}", "20", "2000", "{out}"],
+    "tr_noise_kb1": ["trace", "noise", "kb1", "{seed}", "20", "2000", "{out}"],
+    "tr_noise_kb2_long": ["trace", "noise", "kb2", "{seed}", "300", "5000", "{out}"],
+    "tr_noise_kb1_long": ["trace", "noise", "kb1", "{seed}", "300", "5000", "{out}"],
     "t_words": ["table", "words", "{out}"],
     "t_layouts": ["table", "layouts", "{out}"],
     "t_preds": ["table", "preds", "{out}"],
@@ -233,6 +245,31 @@ JOBS = {
                        env={"GRAPH": "art:g_event", "ALPHA": "alpha:g_event", "COMP": "event"}),
     "conf_kb2_events": dict(kind="tlc", module="Conf_Event", cfg="Conf_Event.cfg", workers=8, heap="8g",
                             env={"GRAPH": "art:g_kb2_events", "ALPHA": "alpha:g_kb2_events", "COMP": "kb2"}),
+    "mc_keyboard_set2": dict(kind="tlc", module="MC_Keyboard", cfg="MC_Keyboard_set2.cfg", workers=8, cont=False),
+    "mc_keyboard_set1": dict(kind="tlc", module="MC_Keyboard", cfg="MC_Keyboard_set1.cfg", workers=8, cont=False),
+    "mc_keyboard_set2_full": dict(kind="tlc", module="MC_Keyboard", cfg="MC_Keyboard_set2_full.cfg", workers=12, cont=False, timeout=3600),
+    "conf_kb2_bits": dict(kind="tlc", module="Conf_Keyboard", cfg="Conf_Keyboard.cfg", workers=8, heap="8g",
+                          env={"GRAPH": "art:g_kb2_bits", "ALPHA": "alpha:g_kb2_bits", "COMP": "kb2", "FGRAPH": "art:g_frame", "SGRAPH": "art:g_set2", "EGRAPH": "art:g_event", "WORDS": "art:t_words"}),
+    "conf_kb1_bits": dict(kind="tlc", module="Conf_Keyboard", cfg="Conf_Keyboard.cfg", workers=8, heap="8g",
+                          env={"GRAPH": "art:g_kb1_bits", "ALPHA": "alpha:g_kb1_bits", "COMP": "kb1", "FGRAPH": "art:g_frame", "SGRAPH": "art:g_set1", "EGRAPH": "art:g_event", "WORDS": "art:t_words"}),
+    "conf_kb2_mixedq": dict(kind="tlc", module="Conf_Keyboard", cfg="Conf_Keyboard.cfg", workers=8, heap="12g",
+                            env={"GRAPH": "art:g_kb2_mixedq", "ALPHA": "alpha:g_kb2_mixedq", "COMP": "kb2", "FGRAPH": "art:g_frame", "SGRAPH": "art:g_set2", "EGRAPH": "art:g_event", "WORDS": "art:t_words"}),
+    "conf_kb1_mixedq": dict(kind="tlc", module="Conf_Keyboard", cfg="Conf_Keyboard.cfg", workers=8, heap="12g",
+                            env={"GRAPH": "art:g_kb1_mixedq", "ALPHA": "alpha:g_kb1_mixedq", "COMP": "kb1", "FGRAPH": "art:g_frame", "SGRAPH": "art:g_set1", "EGRAPH": "art:g_event", "WORDS": "art:t_words"}),
+    "conf_kb2_mixed": dict(kind="tlc", module="Conf_Keyboard", cfg="Conf_Keyboard.cfg", workers=12, heap="28g", timeout=3600,
+                           env={"GRAPH": "art:g_kb2_mixed", "ALPHA": "alpha:g_kb2_mixed", "COMP": "kb2", "FGRAPH": "art:g_frame", "SGRAPH": "art:g_set2", "EGRAPH": "art:g_event", "WORDS": "art:t_words"}),
+    "trace_kb2": dict(kind="tlc", module="Trace_Keyboard", cfg="Trace_Keyboard.cfg", workers=1, cont=False,
+                      jvm=["-Dtlc2.tool.queue.IStateQueue=StateDeque"],
+                      env={"TRACE": "art:tr_noise_kb2", "COMP": "kb2", "FGRAPH": "art:g_frame", "SGRAPH": "art:g_set2", "EGRAPH": "art:g_event", "WORDS": "art:t_words"}),
+    "trace_kb1": dict(kind="tlc", module="Trace_Keyboard", cfg="Trace_Keyboard.cfg", workers=1, cont=False,
+                      jvm=["-Dtlc2.tool.queue.IStateQueue=StateDeque"],
+                      env={"TRACE": "art:tr_noise_kb1", "COMP": "kb1", "FGRAPH": "art:g_frame", "SGRAPH": "art:g_set1", "EGRAPH": "art:g_event", "WORDS": "art:t_words"}),
+    "trace_kb2_long": dict(kind="tlc", module="Trace_Keyboard", cfg="Trace_Keyboard.cfg", workers=1, heap="16g", timeout=3600, cont=False,
+                           jvm=["-Dtlc2.tool.queue.IStateQueue=StateDeque"],
+                           env={"TRACE": "art:tr_noise_kb2_long", "COMP": "kb2", "FGRAPH": "art:g_frame", "SGRAPH": "art:g_set2", "EGRAPH": "art:g_event", "WORDS": "art:t_words"}),
+    "trace_kb1_long": dict(kind="tlc", module="Trace_Keyboard", cfg="Trace_Keyboard.cfg", workers=1, heap="16g", timeout=3600, cont=False,
+                           jvm=["-Dtlc2.tool.queue.IStateQueue=StateDeque"],
+                           env={"TRACE": "art:tr_noise_kb1_long", "COMP": "kb1", "FGRAPH": "art:g_frame", "SGRAPH": "art:g_set1", "EGRAPH": "art:g_event", "WORDS": "art:t_words"}),
     "props_scan": dict(kind="tlc", module="Props_Scan", cfg="Props_Scan.cfg", workers=1,
                        env={"GRAPH1": "art:g_set1", "GRAPH2": "art:g_set2"}),
 }
@@ -248,6 +285,13 @@ PROPS = {
     "C07": dict(quick=["mc_set1", "mc_set2", "props_scan"], graphs=["g_set1", "g_set2"]),
     "C13": dict(quick=["props_scan"], graphs=["g_set1", "g_set2"]),
     "C19": dict(quick=["mc_set1", "mc_set2", "props_scan"], graphs=["g_set1", "g_set2"]),
+    "C18": dict(quick=["mc_keyboard_set2", "conf_kb2_mixedq", "conf_kb1_mixedq", "trace_kb2", "trace_kb1"],
+                thorough=["mc_keyboard_set2", "mc_keyboard_set1", "mc_keyboard_set2_full", "conf_kb2_bits", "conf_kb1_bits",
+                          "conf_kb2_mixedq", "conf_kb1_mixedq", "conf_kb2_mixed", "trace_kb2_long", "trace_kb1_long"],
+                graphs=["g_kb2_mixedq", "g_kb1_mixedq"],
+                traces=["tr_noise_kb2", "tr_noise_kb1"],
+                graphs_thorough=["g_kb2_bits", "g_kb1_bits", "g_kb2_mixedq", "g_kb1_mixedq", "g_kb2_mixed"],
+                traces_thorough=["tr_noise_kb2_long", "tr_noise_kb1_long"]),
     "C03": dict(quick=["conf_layouts"], tables=["t_layouts"]),
     "C09": dict(quick=["conf_layouts"], tables=["t_layouts"]),
     "C10": dict(quick=["conf_layouts"], tables=["t_layouts"]),
@@ -281,6 +325,14 @@ def canon_key(rec):
         obs = rec.get("observed")
         obs_s = "/".join(str(x) for x in obs) if isinstance(obs, list) and obs and obs[0] != "panic" else "panic"
         return "io comp=%s ctx=%s input=%s observed=%s" % (rec.get("comp"), ctx_s, inp_s, obs_s)
+    if k in ("trace-ret", "trace-stage", "trace-obs"):
+        return "%s comp=%s line=%s input=%s observed=%s" % (
+            k, rec.get("comp"), rec.get("line"), json.dumps(rec.get("input"), separators=(",", ":")),
+            json.dumps(rec.get("observed", rec.get("stage")), separators=(",", ":")))
+    if k in ("kb-io", "kb-getter"):
+        return "%s comp=%s ctx=%s input=%s observed=%s" % (
+            k, rec.get("comp"), json.dumps(rec.get("ctx"), separators=(",", ":")),
+            json.dumps(rec.get("input"), separators=(",", ":")), json.dumps(rec.get("observed"), separators=(",", ":")))
     if k in ("event-io", "getter", "mods-shown"):
         return "%s comp=%s ctx=%s input=%s observed=%s query=%s" % (
             k, rec.get("comp"), json.dumps(rec.get("ctx"), separators=(",", ":")),
@@ -348,6 +400,8 @@ def write_replay(ctx, pid, n, rec, jobname):
              "kb2": "g_kb2_bytes", "event": "g_event"}.get(comp)
     if comp == "kb2" and rec.get("kind") in ("event-io", "getter", "mods-shown"):
         gname = "g_kb2_events"
+    if rec.get("kind") in ("kb-io", "kb-getter"):
+        gname = rec.get("graph") or ("g_%s_mixedq" % comp)
     gname = rec.get("graph", gname)
     if "access" in rec and gname in ARTEFACTS:
         try:
@@ -416,7 +470,7 @@ def graph_transitions(path):
             r = json.loads(line)
             n += len(r.get("out", []))
             if idx in (0, 1) or (idx % 997 == 5 and len(samples) < 4):
-                samples.append({"state": r["id"][:120], "access": r["access"][:12],
+                samples.append({"state": r.get("id", "")[:120], "access": r["access"][:12],
                                 "first_outputs": r["out"][:3]})
     return n, samples
 
@@ -467,7 +521,13 @@ def run_check(pid, tier, seed):
         print("  case: %s :: %s" % (key, describe(rec)))
     # evidence
     impl_n, samples = 0, []
-    for g in p.get("graphs", []):
+    for tname in (p.get("traces_" + tier) or p.get("traces", [])):
+        path = ctx.art(tname)
+        impl_n += count_lines(path)
+        with open(path) as f:
+            lines = [json.loads(f.readline()) for _ in range(4)]
+        samples.append({"artefact": tname, "first_lines": lines})
+    for g in (p.get("graphs_" + tier) or p.get("graphs", [])):
         n, s = graph_transitions(ctx.art(g))
         impl_n += n
         samples += [dict(x, artefact=g) for x in s[:2]]
